@@ -486,7 +486,9 @@ func (e *kvElection) becomeLeader(token string, rev uint64) bool {
 		e.validationLoop(termCtx)
 	}()
 
-	if e.onPromote != nil {
+	// Taken under e.mu (held here): the callback goroutine must not read the field
+	// while OnPromote replaces it.
+	if onPromote := e.onPromote; onPromote != nil {
 		log.Info("leader_promoted",
 			append(e.logWithContext(e.ctx),
 				zap.String("token", token),
@@ -507,7 +509,7 @@ func (e *kvElection) becomeLeader(token string, rev uint64) bool {
 			}()
 			promoteCtx, cancel := context.WithCancel(termCtx)
 			defer cancel()
-			e.onPromote(promoteCtx, token)
+			onPromote(promoteCtx, token)
 		}()
 	}
 	return true
